@@ -114,8 +114,15 @@ def rows(ctx: Ctx, params):
             except Exception as ex:  # noqa: BLE001
                 row["r"] = f"EXC:{type(ex).__name__}:{ex}"[:120]
             out.append(row)
-        for _ in range(3 if quick else 20):
-            x = [rng.randrange(TP) if rng.random() < 0.7 else 0 for _ in range(12)]
+        sup = [[k] for k in range(12)] + [[0, 6], [6], [0, 2, 4, 6, 8, 10], [0, 3, 6, 9], [0, 4, 8], [1, 7], [0, 6, 11]]
+        shaped = []
+        for sp in sup:
+            cs = [0] * 12
+            for k in sp:
+                cs[k] = rng.randrange(1, TP)
+            shaped.append(cs)
+        for x in [[rng.randrange(TP) if rng.random() < 0.7 else 0 for _ in range(12)] for _ in range(3 if quick else 20)] + \
+                (shaped if fam == "opt" else shaped[:3]):
             for op, fn in (("fe", pm.final_exponentiate),) + ((("frob", pm.exp_by_p),) if fam == "opt" else ()):
                 row = {"op": op, "m": fam, "a": 0, "b": 0, "x": x}
                 try:
